@@ -20,7 +20,7 @@ from .. import nf, vg
 from ..core import Ctx
 from ..model import AnalysisError
 
-FLOOR = 22
+FLOOR = 25
 EXPLANATION = (
     "Static expression-level validation of RewardScaler.update/__call__, ExponentialBaseline.eval and WarmupBaseline.eval/"
     "epoch_callback against the stated recurrences, on polynomial normal forms of the def-use value graph (which version of "
